@@ -1789,4 +1789,68 @@ class C01(Oracle):
         return out
 
 
-ORACLES = {'C18': C18, 'C08': C08, 'C09': C09, 'C10': C10, 'C11': C11, 'C12': C12, 'C05': C05, 'C06': C06, 'C07': C07, 'C04': C04, 'C20': C20, 'C15': C15, 'C16': C16, 'C13': C13, 'C01': C01}
+
+class C19(Oracle):
+    prop = 'C19'
+
+    def gen(self, rng):
+        while True:
+            h, w = rng.randint(1, 7), rng.randint(1, 7)
+            if rng.random() < 0.5:
+                area = [0, h - 1, 0, w - 1]
+            else:
+                y0, x0 = rng.randint(-6, 2), rng.randint(-6, 2)
+                area = [y0, y0 + h - 1, x0, x0 + w - 1]
+            py, px = rng.randint(area[0], area[1]), rng.randint(area[2], area[3])
+            yield {'kind': 'fan', 'area': area, 'origin': [py, px], 'order': rng.randrange(10**6)}
+
+    def check(self, c):
+        from gym_gridverse.utils import raytracing
+        from gym_gridverse.envs import visibility_functions as vf
+        from gym_gridverse.grid import Grid
+        from gym_gridverse.grid_object import Floor
+
+        out = []
+        a = c['area']
+        area = Area((a[0], a[1]), (a[2], a[3]))
+        pos = Position(*c['origin'])
+        rays = raytracing.compute_rays_fancy(pos, area)
+        seen = set()
+        for r in rays:
+            if not r or r[0] != pos:
+                out.append(V('ray/does-not-start-at-origin', f'{c}'))
+                continue
+            if any(not area.contains(p) for p in r):
+                out.append(V('ray/leaves-area', f'{c}'))
+            if len(set(p.yx for p in r)) != len(r):
+                out.append(V('ray/repeats-a-cell', f'{c}'))
+            for p, q in zip(r, r[1:]):
+                if max(abs(p.y - q.y), abs(p.x - q.x)) != 1:
+                    out.append(V('ray/non-adjacent-step', f'{c}: {p}->{q}'))
+                    break
+            l = r[-1]
+            if not (l.y in (area.ymin, area.ymax) or l.x in (area.xmin, area.xmax)):
+                out.append(V('ray/does-not-end-on-border', f'{c}: {l}'))
+            seen |= {p.yx for p in r}
+        if seen != {p.yx for p in area.positions()}:
+            out.append(V('fan/does-not-cover-area', f'{c}: missing {sorted({p.yx for p in area.positions()} - seen)[:5]}'))
+        # unobstructed view shows everything (zero-based areas are what the visibility functions use)
+        if area.ymin == 0 and area.xmin == 0:
+            g = Grid([[Floor() for _ in range(area.width)] for _ in range(area.height)])
+            if not vf.raytracing(g, pos).all():
+                out.append(V('raytracing/unobstructed-view-hides-cell', f'{c}'))
+        # determinism and cache independence: interleave other queries, compare again
+        rr = random.Random(c['order'])
+        others = [(Position(0, 0), Area((0, rr.randint(0, 4)), (0, rr.randint(0, 4)))) for _ in range(3)]
+        first = raytracing.cached_compute_rays_fancy(pos, area)
+        for p2, a2 in others:
+            raytracing.cached_compute_rays_fancy(p2, a2)
+        again = raytracing.cached_compute_rays_fancy(pos, area)
+        fresh = raytracing.compute_rays_fancy(pos, area)
+        key = lambda rs: [[p.yx for p in r] for r in rs]  # noqa: E731
+        if not (key(first) == key(again) == key(fresh) == key(rays)):
+            out.append(V('rays/cache-or-nondeterminism', f'{c}'))
+        return out
+
+
+ORACLES = {'C18': C18, 'C08': C08, 'C09': C09, 'C10': C10, 'C11': C11, 'C12': C12, 'C05': C05, 'C06': C06, 'C07': C07, 'C04': C04, 'C20': C20, 'C15': C15, 'C16': C16, 'C13': C13, 'C01': C01, 'C19': C19}
